@@ -426,6 +426,8 @@ fn take_frames(st: &Arc<Mutex<StreamState>>) -> Vec<Vec<u8>> {
 struct Global {
     ctx: Arc<Ctx>,
     thorough: bool,
+    /// offer every cut point of a frame (otherwise a fixed handful)
+    all_cuts: AtomicBool,
     stats: Stats,       // counters + samples + distinct non-trivial cases
     states: Stats,      // distinct quiescent states
     transitions: AtomicU64,
@@ -474,6 +476,9 @@ struct Core<'a> {
     serial: u16,
     aborted: bool,
     budget: Option<Duration>,
+    /// (caller, id of the message it was handed) when the caller's request had
+    /// not yet reached the wire at completion: checked when it does
+    deferred_id: Vec<(usize, u16)>,
 }
 
 fn err_class(e: &Error) -> String {
@@ -506,6 +511,7 @@ impl<'a> Core<'a> {
             serial: 0,
             aborted: false,
             budget: None,
+            deferred_id: Vec::new(),
         }
     }
     fn choose(&self, n: usize, label: &'static str) -> usize {
@@ -526,7 +532,7 @@ impl<'a> Core<'a> {
     }
     fn violate(&mut self, sig: String, what: String) {
         let choices = self.ch.lock().unwrap().choices();
-        let case = json!({"transport": self.tname, "cfg": self.cfg, "choices": choices, "thorough": self.g.thorough, "log": self.log});
+        let case = json!({"transport": self.tname, "cfg": self.cfg, "choices": choices, "all_cuts": self.g.all_cuts.load(Ordering::Relaxed), "log": self.log});
         if self.g.verbose {
             println!("  !! {sig}: {what}");
         }
@@ -563,7 +569,16 @@ impl<'a> Core<'a> {
                 } else if n_handed > n_del {
                     self.violate(format!("C15|{}|ok-response|one-message-handed-to-several-callers", self.tname), format!("message delivered {n_del}x handed to {n_handed} callers: {}", hex(b)));
                 }
-                let ids = self.reqs[i].ids.clone();
+                let mut ids = self.reqs[i].ids.clone();
+                if ids.is_empty() && b.len() >= 2 {
+                    // The subject assigned an ID but has not written the
+                    // request yet (write pending): take the ID on trust now,
+                    // verify it when the request reaches the wire.
+                    let id = u16::from_be_bytes([b[0], b[1]]);
+                    ids.push(id);
+                    self.deferred_id.push((i, id));
+                    self.count("ok-before-request-on-wire(id check deferred)");
+                }
                 if let Err(why) = answers(b, &ids, self.reqs[i].q) {
                     self.violate(
                         format!("C15|{}|ok-response|{}", self.tname, why),
@@ -685,6 +700,24 @@ impl<'a> Core<'a> {
         }
     }
 
+    /// The subject put a request of caller `i` with `id` on the wire.
+    fn learn_id(&mut self, i: usize, id: u16) {
+        self.reqs[i].ids.push(id);
+        let d = std::mem::take(&mut self.deferred_id);
+        for (c, got) in d {
+            if c != i {
+                self.deferred_id.push((c, got));
+            } else if got != id {
+                self.violate(
+                    format!("C15|{}|ok-response|id-mismatch", self.tname),
+                    format!("request {i} was handed a message with id {got} before its request was written; the request then went out with id {id}"),
+                );
+            } else {
+                self.count("deferred-id-check.ok");
+            }
+        }
+    }
+
     fn submit<S: SendRequest<Rq>>(&mut self, conn: &S, i: usize) {
         let q = self.reqs[i].q;
         let msg = build_request(i, q);
@@ -745,6 +778,9 @@ impl<'a> Core<'a> {
 
     /// End of execution: exactly-once completion, bookkeeping.
     fn finish(&mut self) {
+        if !self.deferred_id.is_empty() {
+            self.count("deferred-id-check.request-never-reached-the-wire");
+        }
         if !self.aborted {
             for i in 0..self.reqs.len() {
                 if self.pending(i) {
@@ -844,7 +880,7 @@ fn account_frame(core: &mut Core, entries: &mut [Entry], conn: usize, healthy: b
 async fn run_stream(g: &Global, cfg: &StreamCfg, ch: Arc<Mutex<Chooser>>) {
     let mut core = Core::new(g, "stream", cfg.json(), ch.clone(), &cfg.plan);
     let st = Arc::new(Mutex::new(StreamState::default()));
-    let mock = MockStream { st: st.clone(), ch: ch.clone(), wf: WFaults { enabled: true, all_cuts: g.thorough } };
+    let mock = MockStream { st: st.clone(), ch: ch.clone(), wf: WFaults { enabled: true, all_cuts: g.all_cuts.load(Ordering::Relaxed) } };
     let mut sc = stream::Config::new();
     if cfg.idle0 {
         sc.set_idle_timeout(Duration::ZERO);
@@ -854,7 +890,7 @@ async fn run_stream(g: &Global, cfg: &StreamCfg, ch: Arc<Mutex<Chooser>>) {
     let mut tr = Some(Slot::new(transport.run()));
     let mut peer = PeerConn { st: st.clone(), fatal: false, tail: None };
     let mut entries: Vec<Entry> = Vec::new();
-    let all = g.thorough;
+    let all = g.all_cuts.load(Ordering::Relaxed);
 
     for _step in 0..64 {
         core.quiesce(&mut tr);
@@ -868,7 +904,7 @@ async fn run_stream(g: &Global, cfg: &StreamCfg, ch: Arc<Mutex<Chooser>>) {
                 eprintln!("MACHINERY: stream: frame does not belong to any caller");
                 std::process::exit(2);
             }
-            core.reqs[idx].ids.push(id);
+            core.learn_id(idx, id);
             entries.push(Entry { conn: 0, req: idx, id, q, open: !peer.fatal });
             core.note(format!("peer sees request of caller {idx} with id {id}"));
         }
@@ -1088,7 +1124,7 @@ async fn run_stream(g: &Global, cfg: &StreamCfg, ch: Arc<Mutex<Chooser>>) {
                 core.quiesce(&mut tr);
                 for f in take_frames(&st) {
                     let (idx, id, _) = parse_request(&f, "stream");
-                    core.reqs[idx].ids.push(id);
+                    core.learn_id(idx, id);
                 }
                 if (0..core.reqs.len()).any(|i| core.pending(i)) {
                     core.note("peer closes (EOF) to end the run".into());
@@ -1114,6 +1150,392 @@ async fn run_stream(g: &Global, cfg: &StreamCfg, ch: Arc<Mutex<Chooser>>) {
     let _ = guard(move || drop(t));
 }
 
+
+// ---------------------------------------------------------------------------
+// mock datagram sockets
+// ---------------------------------------------------------------------------
+
+struct DgSock {
+    owner: usize,
+    sent: Vec<Vec<u8>>,
+    inbox: VecDeque<Result<Vec<u8>, ()>>,
+    waker: Option<Waker>,
+    dropped: bool,
+    in_recv: bool,
+    sent_at: Option<Instant>,
+}
+
+#[derive(Default)]
+struct DgShared {
+    socks: Vec<DgSock>,
+    connects: u32,
+}
+
+#[derive(Clone)]
+struct DgConnect {
+    sh: Arc<Mutex<DgShared>>,
+    ch: Arc<Mutex<Chooser>>,
+    current: Arc<Mutex<Option<usize>>>,
+    faults: bool,
+}
+impl std::fmt::Debug for DgConnect {
+    fn fmt(&self, f: &mut std::fmt::Formatter<'_>) -> std::fmt::Result {
+        f.write_str("DgConnect")
+    }
+}
+
+struct DgConn {
+    sh: Arc<Mutex<DgShared>>,
+    ch: Arc<Mutex<Chooser>>,
+    idx: usize,
+    faults: bool,
+}
+impl Drop for DgConn {
+    fn drop(&mut self) {
+        self.sh.lock().unwrap().socks[self.idx].dropped = true;
+    }
+}
+
+impl AsyncConnect for DgConnect {
+    type Connection = DgConn;
+    type Fut = Pin<Box<dyn Future<Output = Result<DgConn, io::Error>> + Send + Sync>>;
+    fn connect(&self) -> Self::Fut {
+        let owner = self.current.lock().unwrap().unwrap_or(usize::MAX);
+        if owner == usize::MAX {
+            eprintln!("MACHINERY: dgram connect() outside a request poll");
+            std::process::exit(2);
+        }
+        let fail = self.faults && self.ch.lock().unwrap().choose(2, "dgram-connect") == 1;
+        let mut sh = self.sh.lock().unwrap();
+        sh.connects += 1;
+        if fail {
+            return Box::pin(std::future::ready(Err(io::Error::new(io::ErrorKind::AddrInUse, "mock connect error"))));
+        }
+        let idx = sh.socks.len();
+        sh.socks.push(DgSock { owner, sent: Vec::new(), inbox: VecDeque::new(), waker: None, dropped: false, in_recv: false, sent_at: None });
+        let c = DgConn { sh: self.sh.clone(), ch: self.ch.clone(), idx, faults: self.faults };
+        Box::pin(std::future::ready(Ok(c)))
+    }
+}
+
+impl AsyncDgramSend for DgConn {
+    fn poll_send(&self, _cx: &mut Context<'_>, buf: &[u8]) -> Poll<Result<usize, io::Error>> {
+        let c = if self.faults { self.ch.lock().unwrap().choose(3, "dgram-send") } else { 0 };
+        if c == 2 {
+            return Poll::Ready(Err(io::Error::new(io::ErrorKind::PermissionDenied, "mock send error")));
+        }
+        let mut sh = self.sh.lock().unwrap();
+        let s = &mut sh.socks[self.idx];
+        s.sent.push(buf.to_vec());
+        s.sent_at = Some(Instant::now());
+        Poll::Ready(Ok(if c == 1 { buf.len() - 1 } else { buf.len() }))
+    }
+}
+
+impl AsyncDgramRecv for DgConn {
+    fn poll_recv(&self, cx: &mut Context<'_>, buf: &mut ReadBuf<'_>) -> Poll<Result<(), io::Error>> {
+        let mut sh = self.sh.lock().unwrap();
+        let s = &mut sh.socks[self.idx];
+        match s.inbox.pop_front() {
+            Some(Ok(d)) => {
+                let n = d.len().min(buf.remaining());
+                buf.put_slice(&d[..n]);
+                s.in_recv = false;
+                Poll::Ready(Ok(()))
+            }
+            Some(Err(())) => {
+                s.in_recv = false;
+                Poll::Ready(Err(io::Error::new(io::ErrorKind::ConnectionRefused, "mock recv error")))
+            }
+            None => {
+                s.waker = Some(cx.waker().clone());
+                s.in_recv = true;
+                Poll::Pending
+            }
+        }
+    }
+}
+
+fn dg_feed(sh: &Arc<Mutex<DgShared>>, sock: usize, d: Result<Vec<u8>, ()>) {
+    let w = {
+        let mut g = sh.lock().unwrap();
+        g.socks[sock].inbox.push_back(d);
+        g.socks[sock].waker.take()
+    };
+    if let Some(w) = w {
+        w.wake();
+    }
+}
+
+/// What the mock peer knows about a caller that is waiting for a datagram.
+#[derive(Clone, Debug)]
+struct DgWait {
+    req: usize,
+    sock: usize,
+    id: u16,
+    q: usize,
+    prev_id: Option<u16>,
+}
+
+/// Callers parked in recv() on a live socket with a request sent, oldest
+/// caller first. Also records IDs / budget start of every datagram seen.
+fn dg_waiting(core: &mut Core, sh: &Arc<Mutex<DgShared>>, seen: &mut usize) -> Vec<DgWait> {
+    let g = sh.lock().unwrap();
+    // learn new sockets' requests
+    let mut learnt = Vec::new();
+    for (si, s) in g.socks.iter().enumerate() {
+        if si >= *seen && !s.sent.is_empty() {
+            let (idx, id, q) = parse_request(&s.sent[0], "dgram");
+            if idx != s.owner || core.reqs[idx].q != q {
+                eprintln!("MACHINERY: dgram: datagram does not belong to the polling caller");
+                std::process::exit(2);
+            }
+            learnt.push((idx, id, s.sent_at));
+        }
+    }
+    // sockets are learnt once they have sent; a socket without a send yet is re-examined
+    let mut new_seen = *seen;
+    while new_seen < g.socks.len() && (!g.socks[new_seen].sent.is_empty() || g.socks[new_seen].dropped) {
+        new_seen += 1;
+    }
+    let mut out = Vec::new();
+    for (si, s) in g.socks.iter().enumerate() {
+        if s.dropped || s.sent.is_empty() || !s.in_recv || !s.inbox.is_empty() {
+            continue;
+        }
+        let (idx, id, q) = parse_request(&s.sent[0], "dgram");
+        let prev_id = g.socks[..si].iter().rev().find(|p| p.owner == idx && !p.sent.is_empty()).map(|p| parse_request(&p.sent[0], "dgram").1);
+        out.push(DgWait { req: idx, sock: si, id, q, prev_id });
+    }
+    drop(g);
+    for (idx, id, at) in learnt.into_iter().skip(0) {
+        if !core.reqs[idx].ids.contains(&id) || true {
+            // one entry per socket (the same random ID twice is possible)
+        }
+        let _ = at;
+        let _ = id;
+        let _ = idx;
+    }
+    *seen = new_seen;
+    out.sort_by_key(|w| w.req);
+    out
+}
+
+#[derive(Clone, Debug)]
+struct DgramCfg {
+    plan: Vec<usize>,
+    retries: u8,
+    silent: bool,
+    max_par: usize,
+}
+impl DgramCfg {
+    fn json(&self) -> Value {
+        json!({"plan": self.plan, "max_retries": self.retries, "peer_silent_by_default": self.silent, "max_parallel": self.max_par})
+    }
+}
+
+#[derive(Clone, Debug)]
+enum DAct {
+    Submit,
+    Reply(usize, RKind), // index into waiting
+    WrongId(usize),
+    WrongQ(usize),
+    Garbage(usize, usize), // length
+    Late(usize),
+    Cross(usize, usize), // to waiting[a]'s socket, the reply for waiting[b]
+    RecvErr(usize),
+    Tick,
+    Cancel(usize),
+    Finish,
+}
+
+const DG_READ_TIMEOUT: Duration = Duration::from_secs(1);
+
+/// Record every ID a caller has put on the wire and the start of its budget
+/// (first datagram). Each socket carries exactly one datagram.
+fn dg_learn(core: &mut Core, sh: &Arc<Mutex<DgShared>>, learnt: &mut Vec<bool>) {
+    let g = sh.lock().unwrap();
+    let mut news = Vec::new();
+    for (si, s) in g.socks.iter().enumerate() {
+        if learnt.len() <= si {
+            learnt.push(false);
+        }
+        if !learnt[si] && !s.sent.is_empty() {
+            learnt[si] = true;
+            let (idx, id, q) = parse_request(&s.sent[0], "dgram");
+            if idx != s.owner || core.reqs[idx].q != q {
+                eprintln!("MACHINERY: dgram: datagram does not belong to the polling caller");
+                std::process::exit(2);
+            }
+            news.push((idx, id, s.sent_at.unwrap()));
+        }
+    }
+    drop(g);
+    for (idx, id, at) in news {
+        core.learn_id(idx, id);
+        if core.reqs[idx].start.is_none() {
+            core.reqs[idx].start = Some(at);
+        }
+        core.note(format!("peer sees datagram of caller {idx} with id {id}"));
+    }
+}
+
+async fn run_dgram(g: &Global, cfg: &DgramCfg, ch: Arc<Mutex<Chooser>>) {
+    let mut core = Core::new(g, "dgram", cfg.json(), ch.clone(), &cfg.plan);
+    let sh = Arc::new(Mutex::new(DgShared::default()));
+    let connect = DgConnect { sh: sh.clone(), ch: ch.clone(), current: core.current.clone(), faults: true };
+    let mut dc = dgram::Config::new();
+    dc.set_read_timeout(DG_READ_TIMEOUT);
+    dc.set_max_retries(cfg.retries);
+    dc.set_max_parallel(cfg.max_par);
+    let conn = dgram::Connection::with_config(connect, dc);
+    core.budget = Some(DG_READ_TIMEOUT * (1 + cfg.retries as u32));
+    let mut tr: Option<Slot<()>> = None;
+    let mut learnt: Vec<bool> = Vec::new();
+    let mut seen = 0usize;
+    let mut idle_ticks = 0;
+
+    for _step in 0..64 {
+        core.quiesce(&mut tr);
+        if core.aborted {
+            break;
+        }
+        dg_learn(&mut core, &sh, &mut learnt);
+        let waiting = dg_waiting(&mut core, &sh, &mut seen);
+        let ex = format!("{:?}|t{:?}", waiting.iter().map(|w| (w.req, w.prev_id.is_some())).collect::<Vec<_>>(), core.reqs.iter().map(|r| r.ids.len()).collect::<Vec<_>>());
+        core.state(&ex);
+
+        let next_unsub = (0..core.reqs.len()).find(|i| !core.reqs[*i].submitted);
+        let any_pending = (0..core.reqs.len()).any(|i| core.pending(i));
+        let mut menu: Vec<DAct> = Vec::new();
+        // default
+        if next_unsub.is_some() {
+            menu.push(DAct::Submit);
+        } else if !waiting.is_empty() {
+            menu.push(if cfg.silent { DAct::Tick } else { DAct::Reply(0, RKind::Answer) });
+        } else if any_pending {
+            menu.push(DAct::Tick);
+        } else {
+            menu.push(DAct::Finish);
+        }
+        for (wi, w) in waiting.iter().enumerate() {
+            if !(next_unsub.is_none() && !cfg.silent && wi == 0) {
+                menu.push(DAct::Reply(wi, RKind::Answer));
+            }
+            menu.push(DAct::Reply(wi, RKind::Tc));
+            menu.push(DAct::Reply(wi, RKind::HdrErr));
+            menu.push(DAct::Reply(wi, RKind::Qr0));
+            menu.push(DAct::WrongId(wi));
+            menu.push(DAct::WrongQ(wi));
+            menu.push(DAct::Garbage(wi, 0));
+            menu.push(DAct::Garbage(wi, 11));
+            if w.prev_id.is_some() {
+                menu.push(DAct::Late(wi));
+            }
+            for (oi, _) in waiting.iter().enumerate() {
+                if oi != wi {
+                    menu.push(DAct::Cross(wi, oi));
+                }
+            }
+            menu.push(DAct::RecvErr(wi));
+        }
+        if !waiting.is_empty() && !(next_unsub.is_none() && cfg.silent) {
+            menu.push(DAct::Tick);
+        }
+        for i in 0..core.reqs.len() {
+            if core.pending(i) {
+                menu.push(DAct::Cancel(i));
+            }
+        }
+        let c = core.choose(menu.len(), "dgram-step");
+        let act = menu[c].clone();
+        core.transitions += 1;
+
+        // deliver a datagram to waiting[wi]; expectation if it is the matching answer
+        let mut deliver = |core: &mut Core, wi: usize, msg: Vec<u8>, what: String| {
+            let w = &waiting[wi];
+            core.note(format!("peer -> caller {} (id {}): {what}", w.req, w.id));
+            core.delivered.push(Delivered { bytes: msg.clone(), udp: true });
+            if msg.len() >= 12 && core.pending(w.req) && answers(&msg, &[w.id], w.q).is_ok() {
+                core.expect.push((w.req, msg.clone()));
+            }
+            dg_feed(&sh, w.sock, Ok(msg));
+        };
+
+        match act {
+            DAct::Submit => {
+                let i = next_unsub.unwrap();
+                core.count("action.submit");
+                core.submit(&conn, i);
+            }
+            DAct::Reply(wi, kind) => {
+                let w = waiting[wi].clone();
+                let s = core.next_serial();
+                core.count(&format!("action.reply.{kind:?}"));
+                deliver(&mut core, wi, mk_resp(w.id, w.q, kind, w.req, s), format!("{kind:?}"));
+            }
+            DAct::WrongId(wi) => {
+                let w = waiting[wi].clone();
+                let s = core.next_serial();
+                core.count("action.reply.WrongId");
+                deliver(&mut core, wi, mk_resp(w.id ^ 0x0100, w.q, RKind::Answer, w.req, s), "answer with another id".into());
+            }
+            DAct::WrongQ(wi) => {
+                let w = waiting[wi].clone();
+                let s = core.next_serial();
+                core.count("action.reply.WrongQ");
+                deliver(&mut core, wi, mk_resp(w.id, 2, RKind::Answer, w.req, s), "right id, another question".into());
+            }
+            DAct::Garbage(wi, l) => {
+                core.count("action.reply.Garbage");
+                deliver(&mut core, wi, vec![0xEE; l], format!("{l} octets of garbage"));
+            }
+            DAct::Late(wi) => {
+                let w = waiting[wi].clone();
+                let mut id = w.prev_id.unwrap();
+                if id == w.id {
+                    id ^= 1; // keep it a stale ID even if the random IDs coincide
+                }
+                let s = core.next_serial();
+                core.count("action.reply.Late");
+                deliver(&mut core, wi, mk_resp(id, w.q, RKind::Answer, w.req, s), "late answer to the previous transmission".into());
+            }
+            DAct::Cross(wi, oi) => {
+                let (w, o) = (waiting[wi].clone(), waiting[oi].clone());
+                let mut id = o.id;
+                if id == w.id {
+                    id ^= 0x0200;
+                }
+                let s = core.next_serial();
+                core.count("action.reply.Cross");
+                deliver(&mut core, wi, mk_resp(id, o.q, RKind::Answer, o.req, s), format!("the answer meant for caller {}", o.req));
+            }
+            DAct::RecvErr(wi) => {
+                let w = waiting[wi].clone();
+                core.count("action.recv-error");
+                core.note(format!("socket of caller {} reports a receive error", w.req));
+                dg_feed(&sh, w.sock, Err(()));
+            }
+            DAct::Tick => {
+                core.count("action.tick");
+                core.note(format!("virtual time advances by {DG_READ_TIMEOUT:?}"));
+                if waiting.is_empty() {
+                    idle_ticks += 1;
+                    if idle_ticks > 4 {
+                        break; // finish() reports the stuck request
+                    }
+                }
+                tokio::time::advance(DG_READ_TIMEOUT).await;
+            }
+            DAct::Cancel(i) => core.cancel(i),
+            DAct::Finish => break,
+        }
+    }
+    core.quiesce(&mut tr);
+    core.finish();
+    let _ = guard(move || drop(conn));
+}
+
 // ---------------------------------------------------------------------------
 // driver
 // ---------------------------------------------------------------------------
@@ -1121,6 +1543,7 @@ async fn run_stream(g: &Global, cfg: &StreamCfg, ch: Arc<Mutex<Chooser>>) {
 #[derive(Clone, Debug)]
 enum Case {
     Stream(StreamCfg),
+    Dgram(DgramCfg),
 }
 
 fn run_case(g: &Global, case: &Case, ch: &mut Chooser) {
@@ -1130,6 +1553,7 @@ fn run_case(g: &Global, case: &Case, ch: &mut Chooser) {
     rt.block_on(async move {
         match case {
             Case::Stream(c) => run_stream(g, c, sh2).await,
+            Case::Dgram(c) => run_dgram(g, c, sh2).await,
         }
     });
     drop(rt);
@@ -1146,12 +1570,28 @@ fn stream_cfgs() -> Vec<StreamCfg> {
     v
 }
 
+fn dgram_cfgs() -> Vec<DgramCfg> {
+    let mut v = Vec::new();
+    for plan in [vec![0], vec![0, 0], vec![0, 1]] {
+        for retries in [0u8, 2] {
+            for silent in [false, true] {
+                let pars: &[usize] = if plan.len() > 1 { &[100, 1] } else { &[100] };
+                for &max_par in pars {
+                    v.push(DgramCfg { plan: plan.clone(), retries, silent, max_par });
+                }
+            }
+        }
+    }
+    v
+}
+
 fn main() {
     let ctx = Ctx::new("C15", "model_checking");
     let thorough = !ctx.quick();
     let g = Global {
         ctx: ctx.clone(),
         thorough,
+        all_cuts: AtomicBool::new(false),
         stats: Stats::new(),
         states: Stats::new(),
         transitions: AtomicU64::new(0),
@@ -1165,12 +1605,24 @@ fn main() {
     for c in stream_cfgs() {
         cases.push(Case::Stream(c));
     }
-    for case in &cases {
-        let t0 = std::time::Instant::now();
-        let (es, capped) = explore(bound, 200_000_000, |ch| run_case(&g, case, ch));
-        capped_any |= capped;
-        per_cfg.push(json!({"case": format!("{case:?}"), "executions": es.executions, "per_deviation_count": es.per_bound, "choice_points": es.choice_points, "max_trace": es.max_trace, "capped": capped, "wall_s": t0.elapsed().as_secs_f64()}));
-        eprintln!("{case:?}: {} executions {:?} in {:.1}s", es.executions, es.per_bound, t0.elapsed().as_secs_f64());
+    for c in dgram_cfgs() {
+        cases.push(Case::Dgram(c));
+    }
+    // pass 1: handful of cut points, full deviation bound;
+    // pass 2 (thorough only): every cut point of every frame, <= 2 deviations
+    let passes: Vec<(bool, usize)> = if thorough { vec![(false, 3), (true, 2)] } else { vec![(false, 2)] };
+    for (all_cuts, bound) in passes {
+        g.all_cuts.store(all_cuts, Ordering::Relaxed);
+        for case in &cases {
+            if all_cuts && !matches!(case, Case::Stream(_)) {
+                continue; // cut points exist only in the stream harness
+            }
+            let t0 = std::time::Instant::now();
+            let (es, capped) = explore(bound, 200_000_000, |ch| run_case(&g, case, ch));
+            capped_any |= capped;
+            per_cfg.push(json!({"case": format!("{case:?}"), "all_cut_points": all_cuts, "deviation_bound": bound, "executions": es.executions, "per_deviation_count": es.per_bound, "choice_points": es.choice_points, "max_trace": es.max_trace, "capped": capped, "wall_s": t0.elapsed().as_secs_f64()}));
+            eprintln!("{case:?} all_cuts={all_cuts} bound={bound}: {} executions {:?} in {:.1}s", es.executions, es.per_bound, t0.elapsed().as_secs_f64());
+        }
     }
     let evals = g.stats.evals();
     ctx.finish(
